@@ -142,12 +142,23 @@ def run_model(spec, ses):
                 elif cp.xmat:
                     # cone-term abstraction: the abstract model need not be a real point (see the numeric search below)
                     ses.stats.undecided += 1
-                    ses.stats.notes.append('undecided: %s (abstract projection counterexample without a real witness)' % label)
+                    ses.dismiss(label, 'abstract projection counterexample of the cone-term abstraction without a real witness')
                 else:
                     raise HarnessError('projection counterexample does not reproduce: %s' % label)
         bc = cp.bound_cons(vs, iface_cols)
         if bc:
-            ses.oblige(name + '/iface-bounds', S + Sdefs, [z3.Not(z3.And(bc))], kind='projection-qf', twin=False)
+            rb, mb = ses.oblige(name + '/iface-bounds', S + Sdefs, [z3.Not(z3.And(bc))], kind='projection-qf', twin=False)
+            if rb == 'sat':
+                pt = {n: fval(mb, vs[c]) for n, c in cm.iface.items()}
+                data = dict(spec=spec, point={k: str(v) for k, v in pt.items()})
+                if replay(data):
+                    finding(ses, 'C07:%s:iface-bounds' % name, 'model %s: a point satisfying the user constraints violates the bounds '
+                            'the compiled program puts on the user\'s columns' % name, data, 'rsv.props.c07:replay')
+                elif not cp.xmat:
+                    raise HarnessError('interface-bounds counterexample does not reproduce: %s' % name)
+                else:
+                    ses.dismiss(name + '/iface-bounds', 'abstract counterexample of the cone-term abstraction without a real witness')
+                    ses.stats.undecided += 1
     # ---- optimum
     with quiet():
         cmr = Compiled(detgen.desc_from_spec(spec), front=spec.get('front', 'ro'), style=spec.get('style')) if tower else cm
